@@ -265,6 +265,19 @@ struct Lab {
     struct k_pkick;
     struct k_skick;
     struct k_mkick;
+    struct k_ckick;
+    struct k_rkick;
+    struct k_vpkick;
+    struct k_wkick;
+    struct k_svkick;
+    // the remaining parameter flavours: const reference, rvalue reference,
+    // virtual_ptr across a virtual base (dynamic cast), shared virtual_ptr,
+    // shared_ptr by value across a virtual base
+    using ckick = y2::method<k_ckick, int(y2::virtual_<const Animal&>), P>;
+    using rkick = y2::method<k_rkick, int(y2::virtual_<Animal&&>), P>;
+    using vpkick = y2::method<k_vpkick, int(y2::virtual_ptr<VBase, P>), P>;
+    using wkick = y2::method<k_wkick, int(y2::virtual_ptr<std::shared_ptr<Animal>, P>), P>;
+    using svkick = y2::method<k_svkick, int(y2::virtual_<std::shared_ptr<VBase>>), P>;
     using mkick = y2::method<k_mkick, int(y2::virtual_<Animal*>), P>;
     using kick = y2::method<k_kick, int(y2::virtual_<Animal&>), P>;
     using meet = y2::method<k_meet, int(y2::virtual_<Animal&>, int, y2::virtual_<Animal&>), P>;
@@ -371,6 +384,14 @@ struct Lab {
             want = P::template static_vptr<Cat>;
         else if (t == typeid(Animal))
             want = P::template static_vptr<Animal>;
+        else if (t == typeid(VBase))
+            want = P::template static_vptr<VBase>;
+        else if (t == typeid(VL))
+            want = P::template static_vptr<VL>;
+        else if (t == typeid(VR))
+            want = P::template static_vptr<VR>;
+        else if (t == typeid(VD))
+            want = P::template static_vptr<VD>;
         if (x._vptr() != want)
             g_seen.vptr_bad = 1;
     }
@@ -394,6 +415,57 @@ struct Lab {
     }
     static int skick_animal(const std::shared_ptr<Animal>& x) {
         return see1(602, *x);
+    }
+    static int ckick_dog(const Dog& x) {
+        return see1(801, x);
+    }
+    static int ckick_animal(const Animal& x) {
+        return see1(802, x);
+    }
+    static int ckick_robodog(const RoboDog& x) {
+        return see1(803, x);
+    }
+    static int rkick_dog(Dog&& x) {
+        return see1(811, x);
+    }
+    static int rkick_cat(Cat&& x) {
+        return see1(812, x);
+    }
+    static int vpkick_vd(y2::virtual_ptr<VD, P> x) {
+        int r = see1(821, *x);
+        check_vptr(x);
+        return r;
+    }
+    static int vpkick_vl(y2::virtual_ptr<VL, P> x) {
+        int r = see1(822, *x);
+        check_vptr(x);
+        return r;
+    }
+    static int vpkick_vbase(y2::virtual_ptr<VBase, P> x) {
+        int r = see1(823, *x);
+        check_vptr(x);
+        return r;
+    }
+    static int wkick_dog(y2::virtual_ptr<std::shared_ptr<Dog>, P> x) {
+        int r = see1(831, *x);
+        check_vptr(x);
+        return r;
+    }
+    static int wkick_animal(y2::virtual_ptr<std::shared_ptr<Animal>, P> x) {
+        int r = see1(832, *x);
+        check_vptr(x);
+        return r;
+    }
+    static int wkick_bulldog(y2::virtual_ptr<std::shared_ptr<Bulldog>, P> x) {
+        int r = see1(833, *x);
+        check_vptr(x);
+        return r;
+    }
+    static int svkick_vd(std::shared_ptr<VD> x) {
+        return see1(841, *x);
+    }
+    static int svkick_vr(std::shared_ptr<VR> x) {
+        return see1(842, *x);
     }
 
     static std::vector<Item>& items() {
@@ -526,6 +598,11 @@ struct Lab {
         v.push_back(method_item<pkick>("pkick", 4, {cAnimal}));
         v.push_back(method_item<skick>("skick", 5, {cAnimal}));
         v.push_back(method_item<mkick>("mkick", 6, {cAnimal}));
+        v.push_back(method_item<ckick>("ckick", 7, {cAnimal}));
+        v.push_back(method_item<rkick>("rkick", 8, {cAnimal}));
+        v.push_back(method_item<vpkick>("vpkick", 9, {cVBase}));
+        v.push_back(method_item<wkick>("wkick", 10, {cAnimal}));
+        v.push_back(method_item<svkick>("svkick", 11, {cVBase}));
         // definitions
         v.push_back(def_item<kick, typename kick::template add_function<kick_dog>>("kick(Dog)", 0, {cDog}, 101));
         v.push_back(def_item<kick, typename kick::template add_function<kick_bulldog>>("kick(Bulldog)", 0, {cBulldog}, 102));
@@ -557,6 +634,19 @@ struct Lab {
         v.push_back(def_item<skick, typename skick::template add_function<skick_animal>>("skick(Animal)", 5, {cAnimal}, 602));
         v.push_back(def_item<mkick, typename mkick::template add_member_function<&Dog::member_kick>>("mkick(Dog::member_kick)", 6, {cDog}, 701));
         v.push_back(def_item<mkick, typename mkick::template add_member_function<&Bulldog::member_kick_bulldog>>("mkick(Bulldog::member_kick_bulldog)", 6, {cBulldog}, 702));
+        v.push_back(def_item<ckick, typename ckick::template add_function<ckick_dog>>("ckick(Dog)", 7, {cDog}, 801));
+        v.push_back(def_item<ckick, typename ckick::template add_function<ckick_animal>>("ckick(Animal)", 7, {cAnimal}, 802));
+        v.push_back(def_item<ckick, typename ckick::template add_function<ckick_robodog>>("ckick(RoboDog)", 7, {cRoboDog}, 803));
+        v.push_back(def_item<rkick, typename rkick::template add_function<rkick_dog>>("rkick(Dog)", 8, {cDog}, 811));
+        v.push_back(def_item<rkick, typename rkick::template add_function<rkick_cat>>("rkick(Cat)", 8, {cCat}, 812));
+        v.push_back(def_item<vpkick, typename vpkick::template add_function<vpkick_vd>>("vpkick(VD)", 9, {cVD}, 821));
+        v.push_back(def_item<vpkick, typename vpkick::template add_function<vpkick_vl>>("vpkick(VL)", 9, {cVL}, 822));
+        v.push_back(def_item<vpkick, typename vpkick::template add_function<vpkick_vbase>>("vpkick(VBase)", 9, {cVBase}, 823));
+        v.push_back(def_item<wkick, typename wkick::template add_function<wkick_dog>>("wkick(Dog)", 10, {cDog}, 831));
+        v.push_back(def_item<wkick, typename wkick::template add_function<wkick_animal>>("wkick(Animal)", 10, {cAnimal}, 832));
+        v.push_back(def_item<wkick, typename wkick::template add_function<wkick_bulldog>>("wkick(Bulldog)", 10, {cBulldog}, 833));
+        v.push_back(def_item<svkick, typename svkick::template add_function<svkick_vd>>("svkick(VD)", 11, {cVD}, 841));
+        v.push_back(def_item<svkick, typename svkick::template add_function<svkick_vr>>("svkick(VR)", 11, {cVR}, 842));
         // kick(Cat)+next registered again, this time without naming its next
         int original = -1;
         for (int i = 0; i < (int)v.size(); ++i)
@@ -584,6 +674,10 @@ struct Lab {
         std::shared_ptr<Animal> s_cat = std::make_shared<Cat>();
         std::shared_ptr<Animal> s_bulldog = std::make_shared<Bulldog>();
         std::shared_ptr<Animal> s_robodog = std::make_shared<RoboDog>();
+        std::shared_ptr<VBase> s_vbase = std::make_shared<VBase>();
+        std::shared_ptr<VBase> s_vl = std::make_shared<VL>();
+        std::shared_ptr<VBase> s_vr = std::make_shared<VR>();
+        std::shared_ptr<VBase> s_vd = std::make_shared<VD>();
     };
     static Objects& objs() {
         static Objects* o = new Objects;
@@ -644,6 +738,21 @@ struct Lab {
             return &o.vr;
         case cVD:
             return &o.vd;
+        }
+        return nullptr;
+    }
+
+    static const std::shared_ptr<VBase>* as_shared_vbase(int c) {
+        auto& o = objs();
+        switch (c) {
+        case cVBase:
+            return &o.s_vbase;
+        case cVL:
+            return &o.s_vl;
+        case cVR:
+            return &o.s_vr;
+        case cVD:
+            return &o.s_vd;
         }
         return nullptr;
     }
@@ -755,6 +864,58 @@ struct Lab {
                 g_seen.most_derived[0] = Dog::g_member_this
                     ? dynamic_cast<const void*>(static_cast<const Dog*>(Dog::g_member_this))
                     : nullptr;
+                break;
+            }
+            case 7: {
+                const Animal& a = *as_animal(tuple[0]);
+                r.expect_md[0] = md(a);
+                r.ret = ckick::fn(a);
+                break;
+            }
+            case 8: {
+                Animal* a = as_animal(tuple[0]);
+                r.expect_md[0] = md(*a);
+                r.ret = rkick::fn(std::move(*a));
+                break;
+            }
+            case 9: {
+                VBase* p = as_vbase(tuple[0]);
+                r.expect_md[0] = md(*p);
+                if (route == 1 && tuple[0] == cVD) {
+                    y2::virtual_ptr<VD, P> typed(objs().vd);
+                    r.ret = vpkick::fn(typed);
+                } else if (route == 1 && tuple[0] == cVL) {
+                    auto typed = y2::virtual_ptr<VL, P>::final(objs().vl);
+                    r.ret = vpkick::fn(typed);
+                } else {
+                    r.ret = vpkick::fn(y2::virtual_ptr<VBase, P>(*p));
+                }
+                break;
+            }
+            case 10: {
+                auto& sp = *as_shared_animal(tuple[0]);
+                r.expect_md[0] = md(*sp);
+                if (route == 1 && tuple[0] == cDog) {
+                    std::shared_ptr<Dog> sd = std::static_pointer_cast<Dog>(sp);
+                    y2::virtual_ptr<std::shared_ptr<Dog>, P> typed(sd);
+                    r.ret = wkick::fn(typed);
+                } else if (route == 1 && tuple[0] == cBulldog) {
+                    auto fresh = y2::make_virtual_shared<Bulldog, P>();
+                    r.expect_md[0] = md(*fresh);
+                    r.ret = wkick::fn(fresh);
+                } else if (route == 1 && tuple[0] == cCat) {
+                    auto typed = y2::virtual_ptr<std::shared_ptr<Cat>, P>::final(
+                        std::static_pointer_cast<Cat>(sp));
+                    r.ret = wkick::fn(typed);
+                } else {
+                    r.ret = wkick::fn(y2::virtual_ptr<std::shared_ptr<Animal>, P>(sp));
+                }
+                break;
+            }
+            case 11: {
+                std::shared_ptr<VBase> sp = *as_shared_vbase(tuple[0]);
+                r.expect_md[0] = md(*sp);
+                r.ret = svkick::fn(sp);
                 break;
             }
             }
@@ -882,6 +1043,7 @@ struct TwExec {
     std::uint64_t events = 0, calls = 0, updates = 0, loads = 0, unloads = 0;
     bool used_mi = false, used_vb = false, used_history = false;
     std::uint64_t failed_loads = 0, dups = 0;
+    std::uint64_t calls_by_method[12] = {}, defs_run_by_method[12] = {};
 
     void check_catalog_sizes(const std::string& when) {
         std::size_t ncls = 0, nmeth = 0;
@@ -1162,9 +1324,14 @@ struct TwExec {
                 for (std::size_t i = 0; i < cand.size(); ++i)
                     tuple.push_back(cand[i][idx[i]]);
                 Res want = dispatch(plan, L, defs, tuple);
-                for (int route = 0; route < (m.slot == 4 ? 2 : 1); ++route) {
+                for (int route = 0; route < (m.slot == 4 || m.slot == 9 || m.slot == 10 ? 2 : 1); ++route) {
                     auto r = Lab<P>::call(m.slot, tuple, route);
                     ++calls;
+                    if (m.slot >= 0 && m.slot < 12) {
+                        ++calls_by_method[m.slot];
+                        if (!r.threw)
+                            ++defs_run_by_method[m.slot];
+                    }
                     std::string key = "m" + std::to_string(m.slot) + "r" + std::to_string(route) + ":" +
                         std::to_string(tuple[0]) + (tuple.size() > 1 ? "," + std::to_string(tuple[1]) : "");
                     std::string where = "method " + std::to_string(m.slot) + " tuple (" + key.substr(key.find(':') + 1) + ")";
@@ -1360,6 +1527,19 @@ MiniOutcome tw_run_t(const J& c) {
     o.nontrivial = ex.calls > 0 && (ex.used_mi || ex.used_vb || ex.used_history);
     o.counters["events"] = ex.events;
     o.counters["calls"] = ex.calls;
+    {
+        static const char* names[12] = {"kick(T&)", "meet(T&,int,T&)", "own(MI base)",
+                                        "vkick(virtual base&)", "pkick(virtual_ptr)",
+                                        "skick(const shared_ptr&)", "mkick(T*, member fn)",
+                                        "ckick(const T&)", "rkick(T&&)",
+                                        "vpkick(virtual_ptr, virtual base)",
+                                        "wkick(shared virtual_ptr)",
+                                        "svkick(shared_ptr by value, virtual base)"};
+        for (int m = 0; m < 12; ++m) {
+            o.counters[std::string("calls:") + names[m]] = ex.calls_by_method[m];
+            o.counters[std::string("definitions_run:") + names[m]] = ex.defs_run_by_method[m];
+        }
+    }
     o.counters["updates"] = ex.updates;
     o.counters["loads"] = ex.loads;
     o.counters["unloads"] = ex.unloads;
@@ -1380,8 +1560,8 @@ J tw_gen(std::uint64_t seed, int tier, long) {
     c.set("policy", pol);
     bool eager_custom = pol == "tw_cus";
     // which part of the menu this run may use (swarm)
-    constexpr int CI_END = 25, M_END = 32; // class items, then methods, then definitions
-    int nitems = 55; // the last one is the duplicate registration
+    constexpr int CI_END = 25, M_END = 37; // class items, then methods, then definitions
+    int nitems = 73; // the last one is the duplicate registration
     std::vector<int> enabled;
     double p = 0.35 + 0.5 * (r.below(100) / 100.0);
     for (int k = 0; k < nitems; ++k)
